@@ -547,7 +547,9 @@ fn oracle09(flags: ConsensusFlags, max_cost: u64, program: &[u8], refs: &[Vec<u8
                             y.cost = 0;
                             x.execution_cost = 0;
                             y.execution_cost = 0;
-                            if render_bundle(&x, "-") != render_bundle(&y, "-") {
+                            // (a puzzle the helper could not serialize within Program's 2 MB limit is returned as nil:
+                            //  outside the rebuild clause, premise fits_tuple of C09_rebuild)
+                            if !too_big && render_bundle(&x, "-") != render_bundle(&y, "-") {
                                 fails.push("rebuilt-generator-conditions-differ".into());
                             }
                         }
